@@ -743,7 +743,9 @@ func (rr *RegRun) ProbeC19(registered map[string]int, inflight bool, trailerSeed
 		}
 	}
 	// unknown names fail closed
-	for _, u := range append([]string{"texttable." + rr.prefix + "never", "texttable.", "csvx", "x.csv", "texttable.texttable", "texttable.json", "TextTable.csv.x", "texttable.markdown", "texttablex", "TextTable2", "texttable-wide", "csv2", "jsonx"}, rr.never...) {
+	for _, u := range append([]string{"texttable." + rr.prefix + "never", "texttable.", "csvx", "x.csv", "texttable.texttable", "texttable.json", "TextTable.csv.x", "texttable.markdown", "texttablex", "TextTable2", "texttable-wide", "csv2", "jsonx",
+		// letters that only Unicode case FOLDING equates with ASCII ones (long s, Kelvin sign) are other letters
+		"c\u017fv", "j\u017fon", "C\u017fV.x", "mar\u212adown\u017f"}, rr.never...) {
 		t := auto.New(u)
 		fill(t)
 		out, err := t.Render()
